@@ -225,10 +225,11 @@ def engine_panic(txt):
         return False
     rest = txt[m.start():]
     g = re.search(r'\ngoroutine \d+ \[[^\]]*\]:\n', rest)
+    pat = re.compile(r'go\.flow\.arcalot\.io/engine[./(]')
     if not g:
-        return 'go.flow.arcalot.io/engine/' in rest
+        return bool(pat.search(rest))
     stack = rest[g.end():].split('\n\n')[0]
-    return 'go.flow.arcalot.io/engine/' in stack
+    return bool(pat.search(stack))
 
 
 def first_panic_line(txt):
